@@ -126,6 +126,7 @@ package http3
 //@   ensures [never-beyond-declared] implies(old(r.hasContentLength) && old(r.remainingContentLength) >= 0, result0 <= old(r.remainingContentLength))
 //@   ensures [accounting] 0 <= result0 && result0 <= len(b) && implies(called("(*Stream).Read") >= 1, r.remainingContentLength == old(r.remainingContentLength) - result0)
 //@   ensures [violation-reported] implies(r.hasContentLength && (r.remainingContentLength < 0 || r.remainingContentLength == 0 && r.str.bytesRemainingInFrame > 0), result1 != nil)
+//@   ensures [short-body-reported] implies(r.hasContentLength && r.remainingContentLength > 0 && called("(*Stream).Read") == 1, result1 != io.EOF)
 //@   modifies r.remainingContentLength, r.violatedContentLength, r.str.bytesRemainingInFrame, r.str.parsedTrailer, b[:]
 
 //@ func (s *Stream) StreamID
@@ -160,3 +161,25 @@ package http3
 //@   ensures [same-rule-as-parser] implies(!old(w.headerComplete) && status >= 200, called("ParseUint") <= 1 && called("ParseInt") == 0 && iff(called("(Header).Del") == 1, called("ParseUint") == 1 && lastresult("ParseUint", 1) != nil))
 //@   ensures [length-recorded] implies(!old(w.headerComplete) && status >= 200 && called("ParseUint") == 1 && called("(Header).Del") == 0, w.contentLen >= 0)
 //@   modifies w.status, w.headerComplete, w.contentLen
+
+// ---------------- optional logger (C18: no panic whatever optional settings are unset) ----------------
+//@ extern (l *log/slog.Logger) Debug
+//@   requires l != nil
+//@   modifies nothing
+
+//@ func (w *responseWriter) writeTrailers
+//@   trusted promotes "Trailer:" headers and serialises the trailer section (QPACK, byte output not modelled); may fail with a stream error
+//@   modifies w.trailerWritten
+
+//@ func (w *responseWriter) flushTrailers
+//@   props C18
+//@   nilable w.logger
+//@   ensures [once] implies(old(w.trailerWritten), called("(*responseWriter).writeTrailers") == 0)
+//@   modifies w.trailerWritten
+
+//@ func (w *responseWriter) declareTrailer
+//@   props C18
+//@   nilable w.logger
+//@   ensures [only-valid-names] implies(!lastresultb("ValidTrailerHeader"), len(w.trailers) == old(len(w.trailers)))
+//@   ensures [declared] implies(lastresultb("ValidTrailerHeader"), has(w.trailers, k))
+//@   modifies w.trailers, w.trailers[*]
